@@ -19,7 +19,7 @@ SPEC = {
         "SemaModel/C03/Model.lean (DistSet, greedySearch, Search) and SemaModel/C10/Model.lean (graph build used by C03_exact_small): hand-written, tied to the code by the correspondence above",
         "float arithmetic: distances are elements of an abstract linear order; the harness supplies the real float32 values through the order-preserving map of their bit patterns (-0.0 identified with +0.0, NaN/Inf excluded: such queries are skipped and counted); the hybrid score -(weight*distance) is computed by the harness in float32 and compared bit for bit with the reported one",
         "C03_safe's hypothesis WF is C10's theorem (C10_step / C10_history) and is observed on every dump by the C10 harness",
-        "C03_exact_small: insert workers sequential (as in C10); the harness exercises the real multi-worker build and judges exactness on the real answers",
+        "C03_exact_small is PARTIAL with respect to the property text: it is proved for graphs built by `C10.run` (insert workers sequential, batch order) and is not lifted to `shardRun` (C03_exact_connected, the search half, needs reachability as a hypothesis and is general); for the real NumCPU-1 parallel workers the exactness clause is judged on the real answers by the harness only (the names are kept: the runner pins required theorem names and statement hashes)",
         "the pre-filter is the node-id set the filter query returns (inverted index / _id lookup: C02); roaring bitmap iteration is ascending",
         "an index bucket that was never written is identified with the fresh index (entry node only)",
     ],
